@@ -28,7 +28,7 @@ from common import *  # noqa
 
 PROP = "C10"
 TABLES = ["C10_DisplayMappings"]
-MODELS = [("c10", "Extract/ExC10.v", "run_C10p")]
+MODELS = [("c10", "Extract/ExC10.v", "run_C10w")]
 
 sys.path.insert(0, os.path.join(VERIF, "gen"))
 
@@ -57,7 +57,7 @@ STYLES = ["", "", "bold", "class:bottom-toolbar", "fg:ansired bg:ansiblue", "und
           "[SetCursorPosition]", "[SetMenuPosition]", "class:zerowidthescape", "[transparent]"]
 ZWE_STYLES = ["[ZeroWidthEscape]", "class:x [ZeroWidthEscape]"]
 PIPE_ALPHA = ["a", "b", "a", " ", " ", "\x00", "\x01", "\t", "\n", "\r", "\x1b", "\x1f", "\x7f", "\x80", "\x9b", "\x9f",
-              "\xa0", "\xad", "\u754c", "\u0301", "\u200b", "\U0001F600", "[", "^", "<"]
+              "\xa0", "\xad", "\u754c", "\u0301", "\u200b", "\U0001F600", "[", "^", "<", "\udc9b", "\udc9d", "\udc90", "\ud800", "\U0001F9D1"]
 
 
 def wctab_for(text):
@@ -87,6 +87,57 @@ def impl_write(case):
     out.write(unS(case[1]))
     out.flush()
     return S(sio.getvalue())
+
+
+ENCODINGS = ["utf-8", "latin-1", "ascii"]
+
+
+class BinStdout:
+    """A stdout with `encoding` and `buffer`, like a real sys.stdout: flush_stdout
+    takes its binary branch and what matters is the BYTES in .buffer."""
+
+    def __init__(self, encoding):
+        self.encoding = encoding
+        self.buffer = io.BytesIO()
+
+    def write(self, data):
+        raise AssertionError("text write on a binary-capable stdout")
+
+    def flush(self):
+        pass
+
+    def isatty(self):
+        return False
+
+    def fileno(self):
+        raise io.UnsupportedOperation("fileno")
+
+
+def impl_flush(case):
+    """kind 8: Vt100_Output over a binary-capable stdout: bytes written for write_raw(data); flush()."""
+    from prompt_toolkit.data_structures import Size
+    from prompt_toolkit.output.vt100 import Vt100_Output
+    so = BinStdout(ENCODINGS[case[1]])
+    out = Vt100_Output(so, lambda: Size(rows=24, columns=80), term="xterm")
+    out.write_raw(unS(case[2]))
+    out.flush()
+    return list(so.buffer.getvalue())
+
+
+def decode_wire(data, encoding):
+    """bytes -> (text the terminal decodes, None) or (None, reason)"""
+    try:
+        if encoding == "utf-8":
+            return data.decode("utf-8", "strict"), None
+        if encoding == "ascii":
+            bad = [b for b in data if b >= 128]
+            if bad:
+                return None, "byte 0x%02x on an ascii stream" % bad[0]
+            return data.decode("ascii"), None
+        return data.decode("latin-1"), None
+    except UnicodeDecodeError as e:
+        return None, "the bytes are not valid %s: byte 0x%02x at offset %d is sent raw (near %r)" % (
+            encoding, data[e.start], e.start, data[max(0, e.start - 10):e.start + 6])
 
 
 _REC = {}
@@ -227,15 +278,26 @@ def impl_producer(case):
         class Ident(Processor):
             def apply_transformation(self, ti):
                 return Transformation(ti.fragments)
+        from prompt_toolkit.auto_suggest import Suggestion
+        from prompt_toolkit.layout.processors import AppendAutoSuggestion, HighlightSelectionProcessor
         procs = []
+        suggestion = None
         for pr in case[2]:
             if pr[0] == 0:
                 procs.append(Ident())
             elif pr[0] == 1:
                 procs.append(PasswordProcessor(char=unS(pr[1])))
-            else:
+            elif pr[0] == 2:
                 procs.append(BeforeInput(frags_of(pr[2]), style=unS(pr[1])))
-        buf = Buffer(document=Document(unS(case[3]), 0))
+            elif pr[0] == 3:
+                procs.append(AppendAutoSuggestion(style=unS(pr[1])))
+                suggestion = Suggestion(unS(pr[2]))
+            else:
+                procs.append(HighlightSelectionProcessor())
+        doc = make_document(unS(case[3]), case[4] if len(case) > 4 else None)
+        buf = Buffer(document=doc)
+        buf.selection_state = doc.selection      # Buffer.reset() drops the selection of the document it is given
+        buf.suggestion = suggestion
         buf._load_history_task = True      # no event loop here: skip the asynchronous history load
         ctl = BufferControl(buffer=buf, lexer=SimpleLexer(style=unS(case[1])), input_processors=procs,
                             include_default_input_processors=False)
@@ -249,7 +311,27 @@ def impl_producer(case):
     if k == 7:
         from prompt_toolkit.layout.utils import explode_text_fragments
         return lines_sx([explode_text_fragments(frags_of(case[1]))])[0]
+    if k == 9:
+        from prompt_toolkit.shortcuts.prompt import _split_multiline_prompt
+        fr = frags_of(case[1])
+        has_before, before, first = _split_multiline_prompt(lambda: list(fr))
+        return [1 if has_before() else 0] + lines_sx([before(), first()])
+    if k == 10:
+        from prompt_toolkit.completion import Completion
+        from prompt_toolkit.layout.menus import CompletionsMenuControl
+        comp = Completion("x", display_meta=frags_of(case[2]))
+        return lines_sx([CompletionsMenuControl()._get_menu_item_meta_fragments(comp, bool(case[3]), case[4])])[0]
     raise ValueError(k)
+
+
+def make_document(text, sel):
+    """sel = None | [cursor, original_cursor, type]"""
+    from prompt_toolkit.document import Document
+    from prompt_toolkit.selection import SelectionState, SelectionType
+    if not sel:
+        return Document(text, len(text))
+    types = [SelectionType.CHARACTERS, SelectionType.LINES, SelectionType.BLOCK]
+    return Document(text, sel[0], selection=SelectionState(original_cursor_position=sel[1], type=types[sel[2]]))
 
 
 def oracle_producer(case, res):
@@ -261,10 +343,16 @@ def oracle_producer(case, res):
         given = [unS(case[1])] + [unS(f[0]) for f in case[2]]
         out = [f for l in res for f in l]
     elif k == 5:
-        given = [unS(case[1])] + [unS(pr[1]) for pr in case[2] if pr[0] == 2] + [unS(f[0]) for pr in case[2] if pr[0] == 2 for f in pr[2]]
+        given = [unS(case[1])] + [unS(pr[1]) for pr in case[2] if pr[0] in (2, 3)] + [unS(f[0]) for pr in case[2] if pr[0] == 2 for f in pr[2]]
         out = [f for l in res for f in l]
     elif k == 6:
         given = [unS(case[2]), unS(case[3])] + [unS(f[0]) for f in case[4]]
+        out = res
+    elif k == 9:
+        given = [unS(f[0]) for f in case[1]]
+        out = res[1] + res[2]
+    elif k == 10:
+        given = [unS(f[0]) for f in case[2]]
         out = res
     else:
         given = [unS(f[0]) for f in case[1]]
@@ -307,7 +395,7 @@ class E2E:
                     yield Completion("yy", start_position=0, display="e", display_meta="n")
             res = {"bytes": "", "log": [], "cells": [], "zwe": []}
             with create_pipe_input() as inp:
-                sio = io.StringIO()
+                sio = BinStdout(spec["enc"]) if spec.get("enc") else io.StringIO()
                 out = rec_output_class()(sio, lambda: Size(rows=spec["rows"], columns=spec["cols"]), term="xterm")
                 with create_app_session(input=inp, output=out):
                     s = PromptSession(message=spec["message"], bottom_toolbar=spec["toolbar"], completer=C(),
@@ -327,7 +415,12 @@ class E2E:
                                 res["zwe"] += [t for r in scr.zero_width_escapes.values() for t in r.values()]
                         for t in list(app._background_tasks):
                             t.cancel()
-                res["bytes"] = sio.getvalue()
+                if spec.get("enc"):
+                    res["wire"] = sio.buffer.getvalue()
+                    text, why = decode_wire(res["wire"], spec["enc"])
+                    res["bytes"], res["wire_error"] = (text or ""), why
+                else:
+                    res["bytes"] = sio.getvalue()
                 res["log"] = out.log
             return res
         return asyncio.run(go())
@@ -456,6 +549,8 @@ def oracle_pipeline(case, info):
 
 
 def oracle_e2e(res, what):
+    if res.get("wire_error"):
+        return ("%s: %s" % (what, res["wire_error"]), "wire-raw-byte")
     # the end-to-end specs never mark anything [ZeroWidthEscape]
     for z in res["zwe"]:
         if z:
@@ -586,11 +681,41 @@ def gen_producer_cases(chk):
             r = rng.random()
             procs.append([0] if r < 0.2 else [1, S(rng.choice(["*", "", "ab", "\x1b"]))] if r < 0.5 else [2, S(rng.choice(pstyles)), frs(2, 3)])
         text = "\n".join(rand_text(rng, 6) for _k in range(rng.randint(1, 3)))
-        cases.append([5, S(rng.choice(pstyles)), procs, S(text)])
+        nlines = text.count("\n") + 1
+        sel = None
+        if rng.random() < 0.5:
+            sel = [rng.randint(0, len(text)), rng.randint(0, len(text)), rng.randint(0, 2)]
+            doc = make_document(text, sel)
+            tab = []
+            for ln in range(nlines):
+                r = doc.selection_range_at_line(ln)
+                if r:
+                    tab.append([ln, r[0], r[1]])
+            procs.insert(0, [4, tab])        # first in the chain: source_to_display is still the identity
+        if rng.random() < 0.4:
+            # the suggestion is only shown with the cursor at the end of the text
+            procs.append([3, S(rng.choice(pstyles)), S(rand_text(rng, 4) if (not sel or sel[0] == len(text)) else ""), nlines - 1])
+        cases.append([5, S(rng.choice(pstyles)), procs, S(text)] + ([sel] if sel else []))
+        cases.append([9, frs(3, 4)])
+        meta = frs(2, 8) or [[S(""), S("")]]     # Completion turns an empty display_meta into [('', '')]
+        cases.append([10, wctab_for("".join(unS(f[1]) for f in meta) + " ."), meta, rng.randint(0, 1), rng.choice([2, 3, 4, 6, 9, 14, 30])])
         disp = frs(2, 8)
         cases.append([6, wctab_for("".join(unS(f[1]) for f in disp) + " ."), S(rng.choice(pstyles)), S(rng.choice(pstyles)), disp,
                       rng.randint(0, 1), rng.choice([1, 2, 3, 4, 6, 9, 14, 30]), rng.randint(0, 1)])
         cases.append([7, frs()])
+    return cases
+
+
+def gen_flush_cases(chk):
+    rng = chk.rng
+    cases = []
+    special = [0x9b, 0xdc9b, 0xdc80, 0xdcff, 0xd800, 0xdfff, 0xe9, 0xff, 0x100, 0x7ff, 0x800, 0xffff, 0x10000, 0x10ffff, 0x1b, 0x7f, 0x80]
+    for enc in range(3):
+        for c in special + list(range(0xdc80, 0xdd00, 7)):
+            cases.append([8, enc, [97, c, 98]])
+        for _ in range(800 if chk.tier == "thorough" else 60):
+            n = rng.randint(0, 8)
+            cases.append([8, enc, [rng.choice(special + [rng.randrange(0, 0x110000), rng.randrange(0, 0x300), 0x41, 0x754c]) for _k in range(n)]])
     return cases
 
 
@@ -608,12 +733,24 @@ def gen_e2e_specs(chk):
         t = "ab" + chr(c) + chr(followers[i % len(followers)]) + "z"
         specs.append({"buffer": t, "message": t + "> ", "display": t, "meta": t, "toolbar": t, "cols": 40, "rows": 10,
                       "family": "pair", "cp": c})
+    # byte level: a stdout with .buffer/.encoding; lone surrogates (undecodable file-name bytes), astral characters
+    sur = [chr(c) for c in range(0xDC80, 0xDD00)]
+    for enc in ENCODINGS:
+        for i in range(0, 128, 16):
+            t = "".join("a" + x + "2J" for x in sur[i:i + 16])
+            specs.append({"buffer": t[:30], "message": t[30:45] + "> ", "display": t[:12], "meta": t[12:24], "toolbar": t[24:],
+                          "cols": 80, "rows": 10, "family": "wire", "enc": enc})
+        t = "x\U0001F600\u754c\xe9\x9b\x1b[2J\ud800z"
+        specs.append({"buffer": t, "message": t + "> ", "display": t, "meta": t, "toolbar": t, "cols": 80, "rows": 10,
+                      "family": "wire", "enc": enc})
     for k in range(6000 if thorough else 250):
         def mix():
             return "".join(rng.choice(ESC_SEQS) if rng.random() < 0.4 else rand_text(rng, 5) for _ in range(rng.randint(1, 4)))
         specs.append({"buffer": mix(), "message": mix() + "> ", "display": mix() or "d", "meta": mix(), "toolbar": mix(),
                       "cols": rng.choice([20, 40, 80]), "rows": rng.choice([6, 10, 24]), "multiline": rng.random() < 0.3,
                       "family": "mixed"})
+        if k % 4 == 0:
+            specs[-1]["enc"] = ENCODINGS[(k // 4) % 3]
     return specs
 
 
@@ -624,7 +761,9 @@ def describe(c, a, m):
         return "Char(%r, %r): impl=%r model=%r" % (unS(c[2]), unS(c[3]), a, m)
     if c[0] == 2:
         return "Vt100_Output.write(%r): impl=%r model=%r" % (unS(c[1]), a, m)
-    if c[0] in (4, 5, 6, 7):
+    if c[0] == 8:
+        return "flush_stdout encoding=%s data=%r: impl bytes=%r model bytes=%r" % (ENCODINGS[c[1]], unS(c[2]), a, m)
+    if c[0] in (4, 5, 6, 7, 9, 10):
         return "producer kind %d case=%s impl=%s model=%s" % (c[0], str(c)[:300], str(a)[:200], str(m)[:200])
     where = "?"
     if isinstance(m, list) and isinstance(a, list):
@@ -642,7 +781,9 @@ def tagger(c, a, m):
         return {"op": "Char", "family": "char-model"}
     if c[0] == 2:
         return {"op": "Vt100_Output.write", "family": "write-model"}
-    if c[0] in (4, 5, 6, 7):
+    if c[0] == 8:
+        return {"op": "flush_stdout", "family": "wire-model"}
+    if c[0] in (4, 5, 6, 7, 9, 10):
         return {"op": "producer-%d" % c[0], "family": "producer-model"}
     part = "?"
     if isinstance(m, list) and isinstance(a, list):
@@ -658,8 +799,10 @@ def run_case_impl(c, env):
         return impl_char(c), None
     if c[0] == 2:
         return impl_write(c), None
-    if c[0] in (4, 5, 6, 7):
+    if c[0] in (4, 5, 6, 7, 9, 10):
         return impl_producer(c), None
+    if c[0] == 8:
+        return impl_flush(c), None
     return impl_pipeline(c, env)
 
 
@@ -674,15 +817,15 @@ def main(tier):
                       {"kind": "structure", "site": p.split(":")[0] + ":" + p.split(" line ")[0].split(":")[-1]},
                       {"problem": p, "how": "gen/gen_t_c10.py scan(<repo>)"}, no_input=True)
     pr = chk.proofs("Props/C10.v", tables=TABLES)
-    okm, logm = build_model("c10", "Extract/ExC10.v", "run_C10p", tables=TABLES)
+    okm, logm = build_model("c10", "Extract/ExC10.v", "run_C10w", tables=TABLES)
     if not okm:
         chk.violation("tie", "model does not build: " + logm[-400:], {"kind": "model-build"}, {"log": logm[-3000:]}, no_input=True)
         proof_gate(chk, pr)
         return chk.finish()
 
     env = StyleEnv()
-    cases = load_corpus(PROP) + gen_char_cases(chk) + gen_write_cases(chk) + gen_pipeline_cases(chk) + gen_producer_cases(chk)
-    dist = {"char": 0, "write": 0, "copy_body+render": 0, "e2e_single": 0, "e2e_mixed": 0, "e2e_pair": 0, "print_formatted_text": 0, "e2e_dumb": 0, "producers": 0}
+    cases = load_corpus(PROP) + gen_char_cases(chk) + gen_write_cases(chk) + gen_pipeline_cases(chk) + gen_producer_cases(chk) + gen_flush_cases(chk)
+    dist = {"char": 0, "write": 0, "copy_body+render": 0, "e2e_single": 0, "e2e_mixed": 0, "e2e_pair": 0, "e2e_wire": 0, "flush": 0, "print_formatted_text": 0, "e2e_dumb": 0, "producers": 0}
     impl_results, oracle_bad = [], set()
     for i, c in enumerate(cases):
         try:
@@ -718,7 +861,22 @@ def main(tier):
             nontrivial = 27 in c[1]
             tags = {"op": "Vt100_Output.write", "family": "write-esc"}
             rep = {"data": unS(c[1]), "how": "Vt100_Output(StringIO).write(data); flush()"}
-        elif c[0] in (4, 5, 6, 7):
+        elif c[0] == 8:
+            dist["flush"] += 1
+            bad = None
+            if res and res[0] in ("EXC", "HANG"):
+                bad = ("flush raised: %r" % (res,), "raise")
+            else:
+                text, why = decode_wire(bytes(res), ENCODINGS[c[1]])
+                sent = unS(c[2])
+                if why:
+                    bad = ("flush of %r on a %s stdout: %s" % (sent, ENCODINGS[c[1]], why), "wire-raw-byte")
+                elif any(is_control(ord(ch)) for ch in text if ch not in sent):
+                    bad = ("flush of %r on a %s stdout put a control character on the wire that was not sent: %r" % (sent, ENCODINGS[c[1]], text), "wire-raw-byte")
+            nontrivial = any(0xD800 <= x <= 0xDFFF or x > 0x7F for x in c[2])
+            tags = {"op": "flush_stdout", "family": bad[1] if bad else ""}
+            rep = {"case": c, "how": "harness/c10.py impl_flush: Vt100_Output(BinStdout(encoding)).write_raw(data); flush()"}
+        elif c[0] in (4, 5, 6, 7, 9, 10):
             dist["producers"] += 1
             bad = ("producer raised: %r" % (res,), "raise") if (res and res[0] in ("EXC", "HANG")) else oracle_producer(c, res)
             nontrivial = True
@@ -821,7 +979,7 @@ def main(tier):
     k = 600 if chk.tier == "thorough" else 150
     idx = sorted(chk.rng.sample(range(len(cases)), min(k, len(cases))))
     pairs = [(cases[i], impl_results[i]) for i in idx]
-    bad, logs = vm_crosscheck(PROP, "run_C10p", "Model.C10_Screen Model.C10_Producers", pairs, per_file=75)
+    bad, logs = vm_crosscheck(PROP, "run_C10w", "Model.C10_Screen Model.C10_Producers Model.C10_Wire", pairs, per_file=75)
     chk.coverage["vm_compute_crosschecked"] = len(pairs)
     model_bad = set(i for i, (a, m) in enumerate(zip(impl_results, model_results)) if sx_norm(a) != m)
     vm_bad = set(idx[b] for b in bad if isinstance(b, int))
@@ -901,7 +1059,7 @@ def replay(data):
         else:
             res, _ = run_case_impl(c, None)
             print("impl -> %r" % (res,))
-            if c and c[0] in (4, 5, 6, 7):
+            if c and c[0] in (4, 5, 6, 7, 9, 10):
                 bad = oracle_producer(c, res)
                 print("ORACLE FAILS: " + bad[0] if bad else "oracle ok")
                 rc = 1 if bad else 0
